@@ -1606,6 +1606,57 @@ func init() {
 	}
 }
 
+// notIntrinsic: returned by an intrinsic that declines (the call proceeds as
+// if there were no intrinsic)
+var notIntrinsic value = &opaque{tag: "not-intrinsic"}
+
+func init() {
+	// encoding/json.Encoder on top of whatever contract model the harness
+	// registered for encoding/json.Marshal: Encode(v) writes Marshal(v) and a
+	// newline to the writer the encoder was made for.  Without such a model
+	// the real code runs (and is usually beyond reach).
+	intrinsics["encoding/json.NewEncoder"] = func(fr *frame, args []value) value {
+		if fr.r.eng.modelFor("encoding/json.Marshal") == nil {
+			return notIntrinsic
+		}
+		res := fr.fn.Signature.Results().At(0).Type()
+		var cell value = zero(deref(res))
+		p := &cell
+		fr.r.jsonEncW[p] = args[0]
+		return p
+	}
+	intrinsics["(*encoding/json.Encoder).Encode"] = func(fr *frame, args []value) value {
+		m := fr.r.eng.modelFor("encoding/json.Marshal")
+		p, _ := args[0].(*value)
+		w, known := fr.r.jsonEncW[p]
+		if m == nil || !known {
+			return notIntrinsic
+		}
+		out := fr.r.callSSA(fr, token.NoPos, m, []value{args[1]}, nil).(tuple)
+		if e, isIface := out[1].(iface); isIface && e.t != nil {
+			return out[1]
+		}
+		text, _ := out[0].([]value)
+		data := append(append([]value(nil), text...), mkBV(8, '\n'))
+		wi := w.(iface)
+		write := fr.r.eng.prog.LookupMethod(wi.t, nil, "Write")
+		if write == nil {
+			panic(engineError{"json.Encoder: the writer's dynamic type has no Write method"})
+		}
+		res := fr.r.callSSA(fr, token.NoPos, write, []value{wi.v, data}, nil).(tuple)
+		return res[1]
+	}
+	intrinsics["(*encoding/json.Encoder).SetEscapeHTML"] = func(fr *frame, args []value) value {
+		if p, _ := args[0].(*value); p != nil {
+			if _, known := fr.r.jsonEncW[p]; known {
+				fr.r.note("json.Encoder.SetEscapeHTML is ignored: the harness's Marshal model decides the escaping")
+				return nil
+			}
+		}
+		return notIntrinsic
+	}
+}
+
 func init() {
 	// vEmit(label, text): record a concrete observation (translator self-test)
 	apiIntrinsics["vEmit"] = func(fr *frame, args []value) value {
